@@ -134,6 +134,13 @@ func (e *c17Env) newApp() {
 			e.t.Fatalf("add chain %s: %v %v", c.RefID, err, b.Err)
 		}
 	}
+	// every user lets the next one sign for it (a fee grant is the chain's delegation): a request signed by the delegate
+	// is still the CREATOR's request
+	for i := 0; i < 3; i++ {
+		if g := fa.GrantFee(fa.User(i), fa.User((i+1)%3)); !g.OK() {
+			e.t.Fatalf("grant: %s %s", g.Log, g.BlockErr)
+		}
+	}
 	sk := &fa.App().SchedulerKeeper
 	e.fa = fa
 	e.router = libwasm.NewRouterMessageDecorator(log.NewNopLogger(), schedbindings.NewLegacyMessenger(sk),
@@ -993,10 +1000,16 @@ func (e *c17Env) genExec(ids []string) {
 		if wantOK && !job.mod {
 			sup, in = c17Sup{kind: "nil"}, nil
 		}
-		u := e.fa.User(r.Rng.Intn(3))
+		ui := r.Rng.Intn(3)
+		u := e.fa.User(ui)
+		signer := u
+		if r.Rng.Intn(3) == 0 {
+			signer = e.fa.User((ui + 1) % 3) // the creator's delegate signs; the request is the creator's
+			r.Stat("exec.msg.signed_by_delegate")
+		}
 		exp = c17Expect{exec: true, execID: id, sup: sup, sender: u.Addr}
 		run = func() (bool, string) {
-			return e.fa.DeliverTx(u, &schedtypes.MsgExecuteJob{Metadata: FAMeta(u.Addr, u.Addr), JobID: id, Payload: in}).OK(), "*"
+			return e.fa.DeliverTx(signer, &schedtypes.MsgExecuteJob{Metadata: FAMeta(u.Addr, signer.Addr), JobID: id, Payload: in}).OK(), "*"
 		}
 	case "wasm", "legacy":
 		b := r.c17Bytes()
